@@ -117,6 +117,9 @@ where
 
     pub fn deallocate(&mut self, value: T) {
         assert!(self.lowest <= value && value <= self.highest);
+        if !self.is_used(value) {
+            return;
+        }
 
         let right = self
             .pool
